@@ -120,7 +120,8 @@ PROPS = {
         "theorems": ["C13_request_refines_spec", "C13_location_is_native_path", "C13_failed_request_changes_nothing", "C13_one_response_per_request_in_order",
                      "C13_first_failure_stops_execution", "C13_all_executed_without_failure", "C13_cases_exhaustive",
                      "C13_loop_total", "C13_tree_stays_tree", "C13_tx_loop_shape", "C13_tx_same_responses_everywhere",
-                     "C13_tx_once", "C13_tx_sender_shows_responses"],
+                     "C13_tx_once", "C13_tx_sender_shows_responses", "C13_tx_finished_pdu_invariant_initial",
+                     "C13_tx_finished_pdu_invariant", "C13_tx_finished_pdu_carries_responses"],
         "components": ["fsmodel", "recv", "send"],
         "rule": "Component recv (transaction clause): the lock-step scripts of the receive transaction, a quarter of which carry filestore "
                 "requests in their Metadata PDU (create a file, make a directory; fresh names, so each succeeds once and would fail if run "
@@ -152,7 +153,9 @@ PROPS = {
                       "Finished PDU is built from, and leaves the filestore the loop left (C13_tx_same_responses_everywhere); once the "
                       "receive-data phase is left no operation sequence changes the filestore or the recorded responses (C13_tx_once); a Finished "
                       "PDU handed to the send transaction yields a Finished indication with exactly its responses "
-                      "(C13_tx_sender_shows_responses). NOT a theorem: 'only in a finalisation that ends without error' (decided by the C13 "
+                      "(C13_tx_sender_shows_responses); invariant RQ over every operation: no Finished PDU is held ready while data is being "
+                      "received, and one that is held ready - hence the one the send arm emits - carries exactly the recorded responses "
+                      "(C13_tx_finished_pdu_*; needs the repaired unacknowledged EOF handler, fix 860603f, found while proving it). NOT a theorem: 'only in a finalisation that ends without error' (decided by the C13 "
                       "oracle of the recv stream on the real code; with an Ignore handler CFDP lets the finalisation continue after a fault). Trusted: Coq kernel; extraction; driver/harness; the behaviour of std::fs on a directory tree as modelled in "
                       "FsModel.v (compared with the real filesystem on every run, not proved); path resolution per C12.",
         "assumptions": ["std::fs behaves on the tree as modelled: no permission failures, no symbolic links, no concurrent modification, a failing "
